@@ -7,6 +7,7 @@ import Gofasta.Driver.Var
 import Gofasta.Driver.Sam
 import Gofasta.Driver.SamVar
 import Gofasta.Driver.C08
+import Gofasta.Driver.Fault
 namespace Gofasta.Driver
 
 def dispatch (c : Case) : Verdict :=
@@ -23,6 +24,8 @@ def dispatch (c : Case) : Verdict :=
   | "TOPA" => runTopa c
   | "SAMVAR" => runSamVar c
   | "C08" => runC08 c
+  | "FAULT" => runFault c
+  | "EXIT" => runExit c
   | _ => { agree := false, spec := "na", model := "unknown-property" }
 
 end Gofasta.Driver
